@@ -110,7 +110,13 @@ pub fn run(in_path: &str, out_path: &str) -> Result<(), String> {
     std::panic::set_hook(Box::new(|_| {}));
     let model = doc["model"].as_str().unwrap_or("a -?? a\n");
     let bn = BooleanNetwork::try_from(model)?;
-    let ctx = SymbolicContext::new(&bn)?;
+    // preprocessing is handed the context of an EXTENDED graph by every model-checking entry point (it also holds
+    // the spare copies `<var>_extra_<i>` and the parameter variables): use such a context here as well
+    let ctx = if doc["plain_ctx"].as_bool().unwrap_or(false) {
+        SymbolicContext::new(&bn)?
+    } else {
+        get_extended_symbolic_graph(&bn, 3)?.symbolic_context().clone()
+    };
     let net_vars: Vec<String> = bn.variables().map(|v| bn.get_variable_name(v).clone()).collect();
     let mut events = Vec::new();
     for item in doc["items"].as_array().ok_or("no items")? {
